@@ -87,7 +87,9 @@ RULE = ("Hypothesis constructs tdm scripts (type tdm with options) with 0..4 int
         "names arrive as the name (a str), variables[name] is the declared array (exact, 2-D), other variables are passed by value, "
         "parameters contains no p-name and is_template() iff a {} parameter is written; q = loads(dumps(p)) preserves the p-arrays "
         "exactly, the references to them and all operations. In the control group p-arrays are passed by value. Non-trivial = >=2 "
-        "p-arrays and an ordinary variable or template parameter. Distinct = SHA-1 of the script text.")
+        "p-arrays and an ordinary variable or template parameter. Distinct = SHA-1 of the script text."
+        " A quarter of the scripts also carries an include line for an ordinary program that declares its own p0 array"
+        " and is never applied.")
 ASSUMPTIONS = ["reference interpreter"]
 BUDGET = {"quick": (1200, 4), "thorough": (26000, 16)}
 
